@@ -46,7 +46,7 @@ Proof. reflexivity. Qed.
 Theorem ctx_frame fuel w o c : writes_ctx o <> Some c -> get_ctx (fst (step_op fuel w o)) c = get_ctx w c.
 Proof.
   intros H. destruct o as [c0 n src|b n v|f t|f t|c0 b n|c0 n]; cbn [step_op writes_ctx] in *; try reflexivity.
-  - destruct (compile_source fuel src); cbn [fst]; try reflexivity.
+  - destruct (compile_checked fuel src); cbn [fst]; try reflexivity.
     unfold get_ctx at 1. cbn [w_ctx]. rewrite zassoc_zset_other by congruence. reflexivity.
   - cbn [fst]. unfold get_ctx at 1. cbn [w_ctx]. rewrite zassoc_zset_other by congruence. reflexivity.
 Qed.
@@ -54,7 +54,7 @@ Qed.
 Theorem bind_frame fuel w o b : writes_bind o <> Some b -> get_bind (fst (step_op fuel w o)) b = get_bind w b.
 Proof.
   intros H. destruct o as [c0 n src|b0 n v|f t|f t|c0 b0 n|c0 n]; cbn [step_op writes_bind] in *; try reflexivity.
-  - destruct (compile_source fuel src); reflexivity.
+  - destruct (compile_checked fuel src); reflexivity.
   - cbn [fst]. unfold get_bind at 1. cbn [w_bind]. rewrite zassoc_zset_other by congruence. reflexivity.
   - cbn [fst]. unfold get_bind at 1. cbn [w_bind]. rewrite zassoc_zset_other by congruence. reflexivity.
 Qed.
@@ -146,7 +146,7 @@ Qed.
 Lemma step_sorted fuel w o : sorted_world w -> sorted_world (fst (step_op fuel w o)).
 Proof.
   intros [Hc Hb]. destruct o as [c0 n src|b0 n v|f t|f t|c0 b0 n|c0 n]; cbn [step_op]; try (split; assumption).
-  - destruct (compile_source fuel src); cbn [fst]; try (split; assumption).
+  - destruct (compile_checked fuel src); cbn [fst]; try (split; assumption).
     split; [|exact Hb]. intros c. rewrite get_ctx_zset. destruct (c =? c0); [apply map_insert_sorted|]; apply Hc.
   - cbn [fst]. split; [exact Hc|]. intros b. rewrite get_bind_zset. destruct (b =? b0); [apply map_insert_sorted|]; apply Hb.
   - cbn [fst]. split; [|exact Hb]. intros c. rewrite get_ctx_zset. destruct (c =? t); apply Hc.
@@ -171,7 +171,7 @@ Qed.
 (** Adding a program that compiles replaces: later lookups see the new one;
     one that does not compile leaves everything as it was. *)
 Definition compiled (fuel : nat) (src : chars) : option stored :=
-  match compile_source fuel src with COk p _ => Some (mkStored (pr_code p) (pr_params p)) | _ => None end.
+  match compile_checked fuel src with COk p _ => Some (mkStored (pr_code p) (pr_params p)) | _ => None end.
 
 Theorem add_program_replaces fuel w c name src k : sorted_world w ->
   map_get (get_ctx (fst (step_op fuel w (OAddProgram c name src))) c) k =
@@ -180,7 +180,7 @@ Theorem add_program_replaces fuel w c name src k : sorted_world w ->
   | None => map_get (get_ctx w c) k
   end.
 Proof.
-  intros [Hc _]. cbn [step_op]. unfold compiled. destruct (compile_source fuel src); cbn [fst]; try reflexivity.
+  intros [Hc _]. cbn [step_op]. unfold compiled. destruct (compile_checked fuel src); cbn [fst]; try reflexivity.
   rewrite get_ctx_zset, Z.eqb_refl. apply map_get_insert. apply Hc.
 Qed.
 
@@ -230,7 +230,7 @@ Qed.
 Lemma step_refines fuel w sw o : refines fuel w sw -> refines fuel (fst (step_op fuel w o)) (sstep fuel sw o).
 Proof.
   intros R. destruct o as [c0 n src|b0 n v|f t|f t|c0 b0 n|c0 n]; cbn [step_op sstep]; try exact R.
-  - unfold compiled. destruct (compile_source fuel src) as [p ps| | | |l] eqn:EC; cbn [fst]; try exact R.
+  - unfold compiled. destruct (compile_checked fuel src) as [p ps| | | |l] eqn:EC; cbn [fst]; try exact R.
     intros c. rewrite get_ctx_zset, sget_zset. destruct (c =? c0); [|apply R].
     destruct (R c0) as [Rg Rs]. split; [|apply map_insert_sorted; exact Rs].
     rewrite Rg. unfold compile_all.
@@ -295,7 +295,7 @@ Proof.
   cbn [fst]. destruct (IH w1 H2) as [A B]. cbv zeta in A, B. rewrite E2 in A, B. cbn [fst] in A, B. rewrite A, B.
   cbn [step_op] in E1. unfold compiled in H1. unfold compile_all at 2. cbn [map fold_left fst snd].
   unfold stored_of, compiled.
-  destruct (compile_source fuel src) as [p ps| | | |l]; try congruence.
+  destruct (compile_checked fuel src) as [p ps| | | |l]; try congruence.
   inversion E1; subst. rewrite get_ctx_zset. cbn. split; reflexivity.
 Qed.
 
